@@ -56,6 +56,9 @@ def tasks(tier):
                 ts.append(("B", ct, g, first, n))
     ts.append(("small",))
     for ct in ("std", "range"):
+        for first in SIGMA:
+            ts.append(("units", ct, first, n))
+    for ct in ("std", "range"):
         ts.append(("long", ct))
         ts.append(("xl", ct))
     return ts
@@ -73,12 +76,17 @@ def check_case(case):
     for k in ("test_period", "min_obs", "min_period"):
         if case.get(k) is not None:
             kw[k] = case[k]
+    sc = case.get("scale_pow2")
     data = alpha.nd(x)
+    if sc is not None:
+        # the same record in other units: values and thresholds multiplied by 2**sc (exact), same verdicts
+        data = data * (2.0 ** sc)
     if case.get("data") == "ma":  # masked array with a finite value hidden under the mask
         miss = [v in (alpha.NAN, None) for v in x]
         data = np.ma.MaskedArray(np.array([50.0 if m else float(v) for v, m in zip(x, miss)]), mask=miss)
     tin = np.array([int(round(s * 1000)) for s in secs], dtype="int64").astype("datetime64[ms]").astype("datetime64[ns]") if frac else alpha.dt64(secs)
-    out = alpha.call(qartod.attenuated_signal_test, data, tin, case["suspect"], case["fail"],
+    mul = 2.0 ** sc if sc is not None else 1
+    out = alpha.call(qartod.attenuated_signal_test, data, tin, case["suspect"] * mul, case["fail"] * mul,
                      check_type=case["check_type"], **kw)
     acceptable, skipped = R.attenuated(alpha.ref(x), secs, case["suspect"], case["fail"], case.get("test_period"),
                                        case.get("min_obs"), case.get("min_period"), case["check_type"])
@@ -125,6 +133,20 @@ def run_task(task, acc):
                         for s, f in THR3:
                             yield dict(x=x, gaps=list(GAPSETS[g]), check_type=ct, suspect=s, fail=f, test_period=tp, min_obs=mo, min_period=mp)
         run_cases(acc, gen(), check_case)
+    elif kind == "units":
+        _, ct, first, n = task
+
+        def gen():
+            for x in series_from(first, min(n, 4)):
+                for sc in (-30, -60, 40):
+                    for tp in (None, 120):
+                        for s, f in THR3 + ((1.0, 1.0),):
+                            yield dict(x=x, gaps=list(GAPSETS[1]), check_type=ct, suspect=s, fail=f, test_period=tp, scale_pow2=sc)
+            xl_ = alpha.xl(SIGMA, 1500)
+            for sc in (-30, 40):
+                for tp in (None, 600):
+                    yield dict(x=list(xl_), gaps=[60] * len(xl_), check_type=ct, suspect=0.75, fail=0.25, test_period=tp, scale_pow2=sc)
+        run_cases(acc, gen(), check_case)
     elif kind == "long":
         ct = task[1]
 
@@ -150,6 +172,11 @@ def run_task(task, acc):
                 for tp, mo, mp in ((None, None, None), (120, None, None), (600, 3, None), (90, None, 60)):
                     for s, f in ((0.75, 0.25), (0.25, 2.5)):
                         yield dict(x=list(x), gaps=gaps, check_type=ct, suspect=s, fail=f, test_period=tp, min_obs=mo, min_period=mp)
+            # mostly 60 s sampling with bursts of 1 s sampling (25 samples every 97): windows hold far more samples than period / median step
+            gaps_b = [1 if (i % 97) < 25 else 60 for i in range(len(x))]
+            for tp, mo in ((600, None), (120, 3), (30, None)):
+                for s, f in ((0.75, 0.25), (2.5, 1.0)):
+                    yield dict(x=list(x), gaps=gaps_b, check_type=ct, suspect=s, fail=f, test_period=tp, min_obs=mo, min_period=None)
         run_cases(acc, gen(), check_case)
     elif kind == "small":
         def gen():
